@@ -87,6 +87,7 @@ static void body_sweep(void)
   uint64_t g; __CPROVER_assume(g < old_n);
   if (t_now < old[g].expires_at) __CPROVER_assert(listed(&old[g]) == 1, "sweep_expired never removes a provider before its own deadline, whatever other providers of the chunk announced");
   else __CPROVER_assert(listed(&old[g]) == 0, "sweep_expired removes every provider whose deadline has passed");
+  __CPROVER_assert(covers(), "sweep_expired keeps the locator's deadline at or after the deadline of every provider it lists");
 }
 static void body_find(void)
 {
@@ -97,6 +98,7 @@ static void body_find(void)
   __CPROVER_assert(m == (t_now < old[g].expires_at ? 1 : 0), "find_providers returns a provider exactly when its own deadline is in the future");
   uint64_t live = 0; for (uint64_t j = 0; j < H; ++j) if (j < old_n && t_now < old[j].expires_at) live++;
   __CPROVER_assert(r.n == live, "find_providers returns nobody else");
+  __CPROVER_assert(covers(), "find_providers keeps the locator's deadline at or after the deadline of every provider it lists");
 }
 static void body_withdraw(void)
 {
@@ -107,6 +109,7 @@ static void body_withdraw(void)
   PeerContact w; w.id = in_who;
   if (same_id(&old[g], &w)) __CPROVER_assert(listed(&old[g]) == 0, "withdraw_contact removes the named provider");
   else __CPROVER_assert(listed(&old[g]) == 1, "withdraw_contact leaves every other provider listed with its own deadline");
+  __CPROVER_assert(covers(), "withdraw_contact keeps the locator's deadline at or after the deadline of every provider it lists (otherwise the next sweep drops live providers)");
 }
 
 /* symbolic execution keeps the single-key views cheap when "entry present / absent" is a constant on each path: the four harnesses
